@@ -591,12 +591,6 @@ def check_combo(res, drv, sc, mgr, issues, skips, outdir, combo, sid):
 
     # ---------------- the report must exist
     if data is None:
-        if fmt == "sarif" and "list index out of range" in (err or "") and model_ok:
-            m = drv.ask({"op": "fmt_sarif_regions", "issues": mi})
-            if isinstance(m, list) and any("err" in x and x["index"] < 0 for x in m) and \
-                    any(i["range"] and i["range"][0] < max(1, i["lineno"] - 1) for i in exp):
-                res.known_finding("C09-sarif-negative-snippet-index")
-                return
         viol("no report was produced (%s)" % err, error=err)
         if fmt == "sarif" and model_ok:
             m = drv.ask({"op": "fmt_sarif_regions", "issues": mi})
@@ -693,10 +687,10 @@ def check_combo(res, drv, sc, mgr, issues, skips, outdir, combo, sid):
             if reg["snippet"] is not None:
                 want_line = i["file"][reg["startLine"] - 1] if 0 < reg["startLine"] <= len(i["file"]) else None
                 if reg["snippet"] != want_line:
-                    if neg:
-                        res.known_finding("C09-sarif-negative-snippet-index")
-                    else:
-                        viol("region.snippet is not the source line at region.startLine", region=reg, want=want_line)
+                    # (was the known finding C09-sarif-negative-snippet-index until /repo fix bd86973: a negative index quoted an unrelated line)
+                    viol("region.snippet is not the source line at region.startLine", region=reg, want=want_line)
+            if neg:
+                res.count("sarif:range-start-above-excerpt")
         if model_ok:
             m = drv.ask({"op": "fmt_sarif_regions", "issues": mi})
             res.count("corr:sarif-regions")
